@@ -79,6 +79,18 @@ CHECKS = {
         "A genuine defect found here was repaired (see known_findings.json, fixed).",
    technique="TLA+ spec DictRecord (SubsetStable over 2^10 subsets) + TLC; S->I replay under all subsets; I->S trace validation (Trace_Subset)",
    design="4 C11"),
+ "C06": dict(
+   category="fault_enumeration",
+   text="DictBuild.tla gives the compiler's outcome algebra ({ok, err}; a sink failure forces err; ok forces read-back validity: ids of indexed entries inside the matrix "
+        "by use, every dictionary-form/split/word-structure reference existing, arrays <= 127 and strings <= 32767, and successful load + analyses). TLC enumerates the fault space: "
+        "11 lexicon-row fields and the matrix text each in their defect classes (missing, empty, non-numeric, -1, limit-1/limit/limit+1, overflow, bad escape, dangling/self/U references, "
+        "128-item arrays, wrong arity; empty file, blank lines, bad/negative header, cells at/beyond/negative coordinates, short lines, garbage), all singles and pairs (thorough: triples). "
+        "Each input is rendered to bytes and run through the real compiler under catch_unwind; successes are loaded, read back through the public reader and analysed in all modes with "
+        "debug assertions; a sink failing after k bytes is tried for EVERY k of compiled dictionaries. TLC validates the recorded outcome trace.",
+   note="Trusted: TLC, JSON bridge, the defect-class renderer. Validity is judged only on read-back + probes. Five genuine defects found here were repaired (known_findings.json, fixed); "
+        "one is recorded as a known finding (split units longer than their word).",
+   technique="TLA+ spec DictBuild (outcome algebra) + TLC enumeration of the fault space (MC_DictBuild) replayed into the real compiler; I->S trace validation (Trace_DictBuild)",
+   design="4 C06"),
 }
 
 NOT_YET = "no check registered yet in this revision (work in progress; see DESIGN.md section 8 build order)"
